@@ -150,7 +150,7 @@ Proof. exact itp_point_bounds. Qed.
 (** termination within the iteration budget nmax = n0 + n1_2 and the post-condition: an exact
     zero strictly inside the bracket, or the midpoint of a sign-change sub-bracket of width
     <= 2 epsilon.  Guards: epsilon > 0, a < b, k1 >= 0, ya < 0 < yb with the signs of f,
-    nmax < 64 (else [1u64 << nmax] overflows). *)
+    nmax < 64 (the statement C14 re-exports; C15_solve_itp_spec_1023 has the weaker guard). *)
 Theorem C15_solve_itp_spec : forall (fuel : nat) (f : R -> R) (a b eps k1 ya yb : R) (n0 : Z),
   0 < eps -> a < b -> 0 <= k1 -> (0 <= n0)%Z ->
   ya < 0 -> 0 < yb -> f a < 0 -> 0 < f b ->
@@ -158,6 +158,28 @@ Theorem C15_solve_itp_spec : forall (fuel : nat) (f : R -> R) (a b eps k1 ya yb 
   (nmax < 64)%Z -> (Z.to_nat nmax <= fuel)%nat ->
   exists x, solve_itp fuel f a b eps n0 k1 ya yb = Some x /\ itp_post f eps a b x.
 Proof. exact solve_itp_spec. Qed.
+
+(** the same with the weaker guard nmax <= 1023 (beyond it the code caps the power of two
+    2^min(nmax,1023) of repair commit 75101ed; before that commit nmax >= 64 overflowed) *)
+Theorem C15_solve_itp_spec_1023 : forall (fuel : nat) (f : R -> R) (a b eps k1 ya yb : R) (n0 : Z),
+  0 < eps -> a < b -> 0 <= k1 -> (0 <= n0)%Z ->
+  ya < 0 -> 0 < yb -> f a < 0 -> 0 < f b ->
+  let nmax := (n0 + itp_n1_2 a b eps)%Z in
+  (nmax <= 1023)%Z -> (Z.to_nat nmax <= fuel)%nat ->
+  exists x, solve_itp fuel f a b eps n0 k1 ya yb = Some x /\ itp_post f eps a b x.
+Proof. exact solve_itp_spec_1023. Qed.
+
+(** the "bracket collapsed to adjacent floats" exit of repair commit 75101ed is never taken in
+    exact arithmetic (the midpoint of a < b is strictly inside), so it does not weaken the above *)
+Theorem C15_itp_break_unreachable : forall a b : R, a < b ->
+  (if Rle_dec (1 * / 2 * (a + b)) a then true else false) || (if Rle_dec b (1 * / 2 * (a + b)) then true else false) = false.
+Proof. exact itp_break_unreachable. Qed.
+
+(** the clamp d0.min(0.0) of repair commit fd4a7ab is the identity in exact arithmetic
+    (d >= 0 forces d0 <= 0), so C15_solve_cubic_exact is unaffected by it *)
+Theorem C15_cubic_clamp_identity : forall d0 de d : R,
+  de * de + d = -4 * (d0 * d0 * d0) -> 0 <= d -> Rmin d0 0 = d0.
+Proof. exact clamp_id. Qed.
 
 (** monotone f: the result is a zero, or within epsilon of every zero *)
 Theorem C15_itp_monotone_within_epsilon : forall (f : R -> R) (eps a b x : R),
@@ -238,6 +260,17 @@ Proof. exact solve_cubic_zero_leading_F64. Qed.
 Theorem C15_F64_solve_quartic_zero_leading : forall c0 c1 c2 c3 c4 : float,
   PrimFloat.is_zero c4 = true -> solve_quartic c0 c1 c2 c3 c4 = solve_cubic c0 c1 c2 c3.
 Proof. exact solve_quartic_zero_leading_F64. Qed.
+
+(** the two repaired float-only paths, executed: a near-triple root whose d0 rounds to +tiny
+    (fd4a7ab: finite values instead of NaN), and an ITP call whose bracket is two adjacent floats
+    with epsilon far below their distance (75101ed: the loop is left in its first iteration) *)
+Example C15_ex_cubic_near_triple_root :
+  forallb F.is_finite (solve_cubic (T:=float) (-0x1.0624dd2f1a9fcp-13) 0x1.3a92a30553261p-14 (-0x1.f75104d551d69p-17) 0x1.0c6f7a0b5ed8dp-20) = true.
+Proof. vm_compute. reflexivity. Qed.
+Example C15_ex_itp_collapsed_bracket :
+  solve_itp (T:=float) 1 (fun x => x - 1) 1 0x1.0000000000001p+0 0x1p-80 0 0x1.999999999999ap-3 (-0x1p-60) 0x1p-60
+  = Some (0x1p-1 * (1 + 0x1.0000000000001p+0)).
+Proof. vm_compute. reflexivity. Qed.
 Local Close Scope float_scope.
 
 Example C15_ex_itp_hypotheses :
